@@ -449,7 +449,7 @@ def store_commit_poison(ctx):
     table = [
         (r"Atomic(Bool|::<bool>)::load", r"poisoned", [("set", "loaded")]),
         (r"Sync::sync|sync::Sync::sync", None, [("bad_unless", "loaded"), ("set", "synced")]),
-        (r"Atomic(Bool|::<bool>)::store", r"poisoned", [("set", "stored")]),
+        (r"Atomic(Bool|::<bool>)::(store|fetch_or|swap)\b|Store::poison|>::poison$", r"poison", [("set", "stored")]),
     ]
     ops, hits = _events(cfg, table)
     _require([table[1]], [hits[1]], "Store::commit")   # Sync::sync anchors
@@ -486,22 +486,22 @@ def store_commit_poison(ctx):
                             scenario="c14_ln_write_fails", key="Store::commit:commit proceeds although poisoned"))
     else:
         raise Unmatched("Store::commit: the poisoned flag is not branched on directly after the load")
-    bad_store = [bb for bb in hits[2] if not re.search(r"const true", cfg.blocks[bb].call[2])]
+    bad_store = [bb for bb in hits[2] if re.search(r"Atomic", cfg.blocks[bb].call[1]) and not re.search(r"const true", cfg.blocks[bb].call[2])]
     extra.append(PQuery("Store::commit: the flag is set to `true`", cfg, {bb: [("bad", None)] for bb in bad_store}, [], {},
                         scenario="c14_ln_write_fails", key="Store::commit:poisoned stored with a value other than true"))
     g = _fn(prog, r">::poison$", "store/mod.rs")
     gcfg = pathsmt.Cfg(g)
-    st = [bb for bb in gcfg.order if gcfg.blocks[bb].call and re.search(r"Atomic(Bool|::<bool>)::store", gcfg.blocks[bb].call[1])]
-    if not st:
-        raise Unmatched("Store::poison does not store into an AtomicBool")
-    extra.append(PQuery("Store::poison: stores `true`", gcfg, {bb: [("bad", None)] for bb in st if not re.search(r"const true", gcfg.blocks[bb].call[2])}, [], {},
-                        scenario="c14_fault_sweep_rollback", key="Store::poison:does not set the flag"))
+    # raising the flag = store(true) / fetch_or(true) / swap(true); anything else (fetch_and, store(false), ...) does not
+    st = [bb for bb in gcfg.order if gcfg.blocks[bb].call and re.search(r"Atomic(Bool|::<bool>)::(store|fetch_or|swap)\b", gcfg.blocks[bb].call[1])
+          and re.search(r"const true", gcfg.blocks[bb].call[2])]
     rets = [bb for bb in gcfg.order if gcfg.blocks[bb].is_return]
+    if not rets:
+        raise Unmatched("Store::poison has no return")
     gops = {bb: [("set", "stored")] for bb in st}
     for bb in rets:
         gops.setdefault(bb, []).append(("bad_unless", "stored"))
-    extra.append(PQuery("Store::poison: the store happens on every path", gcfg, gops, ["stored"], {},
-                        scenario="c14_fault_sweep_rollback", key="Store::poison:returns without setting the flag"))
+    extra.append(PQuery("Store::poison: raises the flag (store / fetch_or / swap of `true`) on every path", gcfg, gops, ["stored"], {},
+                        scenario=["c14_fault_sweep_rollback", "c14_ln_write_fails"], key="Store::poison:returns without setting the flag"))
     for rx, fh, nm in [(r">::is_poisoned$", "store/mod.rs", "Store::is_poisoned"), (r">::is_poisoned$", "lib.rs", "Nomt::is_poisoned")]:
         h = _fn(prog, rx, fh)
         hcfg = pathsmt.Cfg(h)
